@@ -103,4 +103,113 @@ theorem delete_other_definition_irrelevant (rm rm' : RoleMgr String) (hw : rm.WF
       exact Or.inr (hsh' a b ⟨n, hp'⟩)
   cases h1 : rm.hasLink a b d <;> cases h2 : rm'.hasLink a b d <;> simp_all
 
+/-! ### Histories of the other definition -/
+
+/-- a link operation of the second definition in domain `d`; a deletion of an absent link is an error that changes nothing -/
+inductive LOp where
+  | add (x y : String)
+  | del (x y : String)
+
+def LOp.apply (d : String) (rm : RoleMgr String) : LOp → RoleMgr String
+  | .add x y => rm.addLink x y d
+  | .del x y => (rm.deleteLink x y d).getD rm
+
+def LOp.In (N2 : String → Prop) : LOp → Prop
+  | .add x y => N2 x ∧ N2 y
+  | .del x _ => N2 x
+
+/-- what the step theorems need of a state: the two name sets stay apart and the hierarchy stays below the limit -/
+structure Good (N1 N2 : String → Prop) (d : String) (rm : RoleMgr String) : Prop where
+  wf : rm.WF
+  sep : Separated N1 N2 (rm.graph d)
+  shallow : C05.Shallow (rm.graph d) rm.maxLevel
+
+theorem step_other_definition (N1 N2 : String → Prop) (d : String) (rm : RoleMgr String) (op : LOp)
+    (h : Good N1 N2 d rm) (h' : Good N1 N2 d (op.apply d rm)) (hin : op.In N2) (a b : String) (ha : N1 a) :
+    (op.apply d rm).hasLink a b d = rm.hasLink a b d := by
+  cases op with
+  | add x y =>
+    exact add_other_definition_irrelevant rm h.wf N1 N2 x y d hin.1 hin.2 h'.sep h.shallow h'.shallow a b ha
+  | del x y =>
+    cases hdel : rm.deleteLink x y d with
+    | none => simp [LOp.apply, hdel]
+    | some rm' =>
+      have he : (LOp.del x y).apply d rm = rm' := by simp [LOp.apply, hdel]
+      rw [he] at h' ⊢
+      exact delete_other_definition_irrelevant rm rm' h.wf N1 N2 x y d hin hdel h.sep h.shallow h'.shallow a b ha
+
+/-- **independence over histories, for disjoint name sets**: whatever sequence of links the second definition adds and
+removes among its own names - as long as the name sets stay apart and the hierarchy below the limit in every state passed
+through - no `has_link` answer for a name of the first definition ever changes -/
+theorem history_other_definition (N1 N2 : String → Prop) (d : String) (ops : List LOp) (rm : RoleMgr String)
+    (h0 : Good N1 N2 d rm) (hin : ∀ op ∈ ops, op.In N2)
+    (hgood : ∀ (pre : List LOp) (op : LOp) (post : List LOp), ops = pre ++ op :: post →
+      Good N1 N2 d ((pre ++ [op]).foldl (LOp.apply d) rm))
+    (a b : String) (ha : N1 a) :
+    (ops.foldl (LOp.apply d) rm).hasLink a b d = rm.hasLink a b d := by
+  induction ops generalizing rm with
+  | nil => rfl
+  | cons op ops ih =>
+    have h1 : Good N1 N2 d (op.apply d rm) := by
+      have := hgood [] op ops rfl
+      simpa using this
+    simp only [List.foldl_cons]
+    rw [ih (op.apply d rm) h1 (fun o ho => hin o (List.mem_cons_of_mem _ ho))]
+    · exact step_other_definition N1 N2 d rm op h0 h1 (hin op List.mem_cons_self) a b ha
+    · intro pre op' post heq
+      have := hgood (op :: pre) op' post (by rw [heq]; rfl)
+      simpa using this
+
+/-! non-vacuity: the premises of `history_other_definition` hold of a one-link history on an empty manager -/
+def N1demo (x : String) : Prop := x = "alice" ∨ x = "admin"
+def N2demo (x : String) : Prop := x = "data1" ∨ x = "group"
+
+theorem good_of_edges (rm : RoleMgr String) (hw : rm.WF) (hm : 2 ≤ rm.maxLevel)
+    (he : ∀ x y, (x, y) ∈ (rm.graph "DEFAULT").edges → x = "data1" ∧ y = "group") :
+    Good N1demo N2demo "DEFAULT" rm := by
+  refine ⟨hw, ⟨?_, ?_⟩, ?_⟩
+  · intro x h1 h2
+    rcases h1 with h1 | h1 <;> rcases h2 with h2 | h2 <;> (rw [h1] at h2; revert h2; decide)
+  · intro x y hxy
+    obtain ⟨rfl, rfl⟩ := he x y hxy
+    exact Or.inr ⟨Or.inl rfl, Or.inr rfl⟩
+  · intro a b ⟨n, hp⟩
+    cases hp with
+    | nil => exact ⟨0, by omega, Path.nil _⟩
+    | cons h1 hp' =>
+      cases hp' with
+      | nil => exact ⟨1, by omega, Path.cons h1 (Path.nil _)⟩
+      | cons h2 _ =>
+        exfalso
+        obtain ⟨_, hy⟩ := he _ _ h1
+        obtain ⟨hx, _⟩ := he _ _ h2
+        rw [hy] at hx
+        revert hx; decide
+
+example (a b : String) (ha : N1demo a) :
+    ([LOp.add "data1" "group"].foldl (LOp.apply "DEFAULT") (RoleMgr.new 10)).hasLink a b "DEFAULT" =
+      (RoleMgr.new 10 : RoleMgr String).hasLink a b "DEFAULT" := by
+  apply history_other_definition N1demo N2demo "DEFAULT" _ _ _ _ _ a b ha
+  · apply good_of_edges _ (WF_new 10) (by decide)
+    intro x y h
+    have : ((RoleMgr.new 10 : RoleMgr String).graph "DEFAULT").edges = [] := by decide +kernel
+    rw [this] at h; cases h
+  · intro op hop
+    simp only [List.mem_singleton] at hop
+    subst hop
+    exact ⟨Or.inl rfl, Or.inr rfl⟩
+  · intro pre op post heq
+    rcases pre with _ | ⟨p1, pre⟩
+    · simp only [List.nil_append, List.cons.injEq] at heq
+      obtain ⟨rfl, _⟩ := heq
+      show Good N1demo N2demo "DEFAULT" ((RoleMgr.new 10 : RoleMgr String).addLink "data1" "group" "DEFAULT")
+      apply good_of_edges _ (addLink_WF (WF_new 10) "data1" "group" "DEFAULT") (by decide +kernel)
+      intro x y h
+      have : (((RoleMgr.new 10 : RoleMgr String).addLink "data1" "group" "DEFAULT").graph "DEFAULT").edges = [("data1", "group")] := by
+        decide +kernel
+      rw [this] at h
+      simp only [List.mem_singleton, Prod.mk.injEq] at h
+      exact h
+    · simp at heq
+
 end Casbin.C19
